@@ -482,6 +482,26 @@ func init() {
 		}
 		return "ok"
 	})
+	// C14: a metadata definition PREPENDED between two prints: the IDs the first print stored stay, so the final text differs from the text of the same
+	// construction printed once (recorded finding)
+	reg("md.prepend", func(a []string) string {
+		build := func(printBetween bool) string {
+			m := ir.NewModule()
+			old := &metadata.Tuple{MetadataID: -1, Fields: []metadata.Field{&metadata.String{Value: "old"}}}
+			m.MetadataDefs = append(m.MetadataDefs, old)
+			if printBetween {
+				_ = m.String()
+			}
+			fresh := &metadata.Tuple{MetadataID: -1, Fields: []metadata.Field{&metadata.String{Value: "fresh"}}}
+			m.MetadataDefs = append([]metadata.Definition{fresh}, m.MetadataDefs...)
+			return safe(func([]string) string { return m.String() }, nil)
+		}
+		with, without := build(true), build(false)
+		if with != without {
+			return "FAIL print-then-prepend " + firstDiff(without, with)
+		}
+		return "ok"
+	})
 	reg("hist.twice.list", func(a []string) string { return "fwd-blockaddress-no-globals,fwd-blockaddress-with-global,float-kinds" })
 	reg("hist.twice", func(a []string) string {
 		m := twiceScenario(a[0])
